@@ -72,7 +72,7 @@ PROPS = {
     "C08": {
         "level": "exploration",
         "jobs": [
-            {"run": "^TestC08", "checks": {"quick": 10, "thorough": 150}, "shards": {"quick": 4, "thorough": 16}, "steps": 25, "shrink_s": 45},
+            {"run": "^TestC08", "checks": {"quick": 14, "thorough": 150}, "shards": {"quick": 4, "thorough": 16}, "steps": 25, "shrink_s": 45},
         ],
         "assumptions": [
             "readings whose scaled value fits 32 signed bits (the property's domain; the other class is KF-C09-1)",
